@@ -706,6 +706,7 @@ myth_thread_t myth_wsapi_runqueue_take(int victim,
   q = &g_envs[victim].runnable_q;
   wc = &q->wc;
 #if QUICK_CHECK_ON_STEAL
+  MYTH_VERIF_POINT(MYTH_VS_Q_TAKE_QC);
   if (q->top-q->base<=0){
     return NULL;
   }
@@ -723,10 +724,13 @@ myth_thread_t myth_wsapi_runqueue_take(int victim,
 #endif
   //Increment base
   b=q->base;
+  MYTH_VERIF_POINT(MYTH_VS_Q_TAKE_BASE_WR);
   q->base=b+1;
   myth_wsqueue_rwbarrier();
+  MYTH_VERIF_POINT(MYTH_VS_Q_TAKE_TOP_RD);
   top=q->top;
   if (b<top){
+    MYTH_VERIF_POINT(MYTH_VS_Q_TAKE_SLOT_RD);
     ret=q->ptr[b];
     if ((!decidefn) || decidefn(ret,udata)){
       //q->ptr[b]=NULL;
@@ -734,6 +738,7 @@ myth_thread_t myth_wsapi_runqueue_take(int victim,
       //fprintf(stderr,"%d cache Invalidate\n",victim);
       //Increment sequence
       int s=wc->seq;
+      MYTH_VERIF_POINT(MYTH_VS_Q_WSAPI_SEQ);
       wc->seq=s+1;
       myth_wsqueue_wbarrier();
       //Copy data
@@ -741,6 +746,7 @@ myth_thread_t myth_wsapi_runqueue_take(int victim,
       wc->size=0;
       //Increment sequence
       myth_wsqueue_wbarrier();
+      MYTH_VERIF_POINT(MYTH_VS_Q_WSAPI_SEQ);
       wc->seq=s+2;
       myth_wsqueue_lock_unlock(&q->lock);
 #if USE_LOCK || USE_LOCK_TAKE
@@ -750,6 +756,8 @@ myth_thread_t myth_wsapi_runqueue_take(int victim,
     }
     myth_wsqueue_wbarrier();
   }
+  MYTH_VERIF_PROBE(MYTH_VP_TAKE_ROLLBACK, q);
+  MYTH_VERIF_POINT(MYTH_VS_Q_TAKE_ROLLBACK);
   q->base=b;
   myth_wsqueue_lock_unlock(&q->lock);
 #if USE_LOCK || USE_LOCK_TAKE
@@ -766,6 +774,7 @@ myth_thread_t myth_wsapi_runqueue_peek(int victim,void *ptr,size_t *psize) {
   wc=&q->wc;
  start:;
   //runqueue empty?
+  MYTH_VERIF_POINT(MYTH_VS_Q_PEEK_QC);
   if (q->top-q->base<=0){
     //empty,return NULL
     return NULL;
@@ -784,8 +793,10 @@ myth_thread_t myth_wsapi_runqueue_peek(int victim,void *ptr,size_t *psize) {
     if (!wc->ptr){
       //Increment base
       b=q->base;
+      MYTH_VERIF_POINT(MYTH_VS_Q_TAKE_BASE_WR);
       q->base=b+1;
       myth_wsqueue_rwbarrier();
+      MYTH_VERIF_POINT(MYTH_VS_Q_TAKE_TOP_RD);
       top=q->top;
       if (b<top){
 	//fprintf(stderr,"%d cache update\n",victim);
@@ -809,6 +820,7 @@ myth_thread_t myth_wsapi_runqueue_peek(int victim,void *ptr,size_t *psize) {
 	myth_wsqueue_wbarrier();
       }
       //Restore b
+      MYTH_VERIF_POINT(MYTH_VS_Q_TAKE_ROLLBACK);
       q->base=b;
     }
     //Release lock
@@ -819,6 +831,7 @@ myth_thread_t myth_wsapi_runqueue_peek(int victim,void *ptr,size_t *psize) {
   int s0,s1;
   myth_thread_t ret;
   do{
+    MYTH_VERIF_POINT(MYTH_VS_Q_PEEK_RD);
     s0=wc->seq;
     myth_wsqueue_rbarrier();
     //Copy date from cache
@@ -832,6 +845,7 @@ myth_thread_t myth_wsapi_runqueue_peek(int victim,void *ptr,size_t *psize) {
     }
     if (psize)*psize=cs;
     myth_wsqueue_rbarrier();
+    MYTH_VERIF_POINT(MYTH_VS_Q_PEEK_RD);
     s1=wc->seq;
   }while ((s0 & 1)||(s1^s0));
   return ret;
